@@ -198,7 +198,14 @@ def _check_case(case, res, count=True):
         xml_ok = not any(set(x['name']) & XML_INVALID for x in list(am.assets) + list(am.attackers))   # an XML 1.0 file cannot hold them
         if all(t['id'] not in aids for t in am.attackers) and xml_ok:
             p = os.path.join(d, 'm.sCAD')
-            legacy.write_scad(p, legacy.scad_xml(rng, lang, am, counters))
+            xml_text = legacy.scad_xml(rng, lang, am, counters)
+            import zlib
+            enc = ('utf-8', 'utf-8', 'utf-8', 'iso-8859-1', 'utf-16')[zlib.crc32(xml_text.encode('utf-8')) % 5]
+            enc = legacy.write_scad(p, xml_text, enc)
+            if count and enc != 'utf-8':
+                res.count('class:eom-document-not-in-utf-8')
+                if any(ord(ch) > 127 for ch in xml_text):
+                    res.count('class:eom-document-not-in-utf-8-with-non-ascii-text')
             try:
                 m = load_model_from_scad_archive(p, lg, fac)
             except Exception as exc:
